@@ -456,6 +456,28 @@ func c20IP(c *Ctx, r *Rng) {
 		R.Case(fmt.Sprintf("ipv4|%d", v), v != 0)
 		check(v, true)
 	}
+	// the helpers invert each other across the families too: an IPv4 address carried as an IPv6 value (::ffff:a.b.c.d, what
+	// ToIPv6 makes of it and what an IPv6 column holds for it) converts back to the same IPv4
+	for i := 0; i < 20000; i++ {
+		v := uint32(r.U64())
+		if i < 7 {
+			v = []uint32{0, 1, 255, 256, 0x7f000001, 0xffffffff, 0x01020304}[i]
+		}
+		ip4 := proto.IPv4(v).ToIP()
+		six := proto.ToIPv6(ip4)
+		back := six.ToIP()
+		if i < 500 {
+			R.Case(fmt.Sprintf("ipv4-via-ipv6|%d", v), v != 0)
+		}
+		if !back.Is4In6() && !back.Is4() || back.Unmap() != ip4 {
+			c20Violate(c, "ipv4-ipv6-roundtrip", fmt.Sprintf("ToIPv6(%s).ToIP() = %s", ip4, back), map[string]any{"fn": "ToIPv6", "v": v})
+			continue
+		}
+		if got := proto.ToIPv4(back); got != proto.IPv4(v) {
+			c20Violate(c, "ipv4-ipv6-roundtrip", fmt.Sprintf("ToIPv4(%s) = %d (%s), the address is %s", back, got, got, ip4), map[string]any{"fn": "ToIPv4 of an IPv4-mapped IPv6 address", "v": v})
+		}
+	}
+	R.CountN("ipv4:via-ipv6", 20000)
 	for i := 0; i < 5000; i++ {
 		var a [16]byte
 		copy(a[:], r.Bytes(16))
